@@ -71,3 +71,75 @@ theorem brl_core (P A : Matrix n n ℝ) (B : Matrix n m ℝ) (C : Matrix k n ℝ
   linarith
 
 #print axioms brl_core
+
+/-! ### from the core to the dissipation inequality in the state `x` and the ℓ2-gain bound -/
+
+/-- storage function `W x = xᵀ P⁻¹ x` -/
+noncomputable def W (P : Matrix n n ℝ) (x : n → ℝ) : ℝ := x ⬝ᵥ (P⁻¹ *ᵥ x)
+
+theorem brl_dissipation (P A : Matrix n n ℝ) (B : Matrix n m ℝ) (C : Matrix k n ℝ) (D : Matrix k m ℝ)
+    (γ : ℝ) (hγ : 0 < γ) (hP : Pᵀ = P) (hPu : IsUnit P.det) (h : (brlLMI P A B C D γ).PosDef)
+    (x : n → ℝ) (u : m → ℝ) :
+    W P (A *ᵥ x + B *ᵥ u) - W P x ≤ γ * (u ⬝ᵥ u) - γ⁻¹ * ((C *ᵥ x + D *ᵥ u) ⬝ᵥ (C *ᵥ x + D *ᵥ u)) := by
+  set ξ := P⁻¹ *ᵥ x with hξ
+  set xp := A *ᵥ x + B *ᵥ u with hxp
+  set η := P⁻¹ *ᵥ xp with hη
+  have hPξ : P *ᵥ ξ = x := by
+    rw [hξ, mulVec_mulVec, mul_nonsing_inv P hPu, one_mulVec]
+  have hPη : P *ᵥ η = xp := by
+    rw [hη, mulVec_mulVec, mul_nonsing_inv P hPu, one_mulVec]
+  by_cases hne : ξ ≠ 0 ∨ u ≠ 0 ∨ η ≠ 0
+  · have core := brl_core P A B C D γ hγ hP h η ξ u hne
+    simp only [hPξ] at core
+    rw [← hxp] at core
+    -- η·xp = W xp,  η·Pη = W xp,  ξ·Pξ = W x
+    have e1 : η ⬝ᵥ xp = W P xp := by
+      unfold W; rw [hη]
+      rw [dotProduct_comm]
+    have e2 : η ⬝ᵥ (P *ᵥ η) = W P xp := by rw [hPη, e1]
+    have e3 : ξ ⬝ᵥ x = W P x := by
+      unfold W; rw [hξ, dotProduct_comm]
+    rw [e1, e2, e3] at core
+    linarith
+  · push Not at hne
+    obtain ⟨h1, h2, h3⟩ := hne
+    have hx0 : x = 0 := by rw [← hPξ, h1, mulVec_zero]
+    have hxp0 : xp = 0 := by rw [← hPη, h3, mulVec_zero]
+    rw [hxp0, hx0, h2]
+    simp [W]
+
+#print axioms brl_dissipation
+
+/-- ℓ2-gain over every finite horizon: from `x₀ = 0`, `Σ ‖y_k‖² ≤ γ² Σ ‖u_k‖²`. -/
+noncomputable def stateAt (A : Matrix n n ℝ) (B : Matrix n m ℝ) (u : ℕ → m → ℝ) : ℕ → n → ℝ
+  | 0 => 0
+  | t+1 => A *ᵥ stateAt A B u t + B *ᵥ u t
+
+theorem brl_l2_gain (P A : Matrix n n ℝ) (B : Matrix n m ℝ) (C : Matrix k n ℝ) (D : Matrix k m ℝ)
+    (γ : ℝ) (hγ : 0 < γ) (hP : Pᵀ = P) (hPu : IsUnit P.det) (hWpos : ∀ x, 0 ≤ W P x)
+    (h : (brlLMI P A B C D γ).PosDef) (u : ℕ → m → ℝ) (N : ℕ) :
+    (Finset.range N).sum (fun t => (C *ᵥ stateAt A B u t + D *ᵥ u t) ⬝ᵥ (C *ᵥ stateAt A B u t + D *ᵥ u t))
+      ≤ γ^2 * (Finset.range N).sum (fun t => u t ⬝ᵥ u t) := by
+  -- telescoping invariant: W x_N + γ⁻¹ Σ‖y‖² ≤ γ Σ‖u‖²
+  have inv : ∀ N, W P (stateAt A B u N)
+      + γ⁻¹ * (Finset.range N).sum (fun t => (C *ᵥ stateAt A B u t + D *ᵥ u t) ⬝ᵥ (C *ᵥ stateAt A B u t + D *ᵥ u t))
+      ≤ γ * (Finset.range N).sum (fun t => u t ⬝ᵥ u t) := by
+    intro N
+    induction N with
+    | zero => simp [stateAt, W]
+    | succ t ih =>
+      have d := brl_dissipation P A B C D γ hγ hP hPu h (stateAt A B u t) (u t)
+      simp only [Finset.sum_range_succ, stateAt]
+      rw [mul_add, mul_add]
+      linarith
+  have hN := inv N
+  have hw := hWpos (stateAt A B u N)
+  have hginv : 0 < γ⁻¹ := inv_pos.mpr hγ
+  have : γ⁻¹ * (Finset.range N).sum (fun t => (C *ᵥ stateAt A B u t + D *ᵥ u t) ⬝ᵥ (C *ᵥ stateAt A B u t + D *ᵥ u t))
+      ≤ γ * (Finset.range N).sum (fun t => u t ⬝ᵥ u t) := by linarith
+  have h2 := mul_le_mul_of_nonneg_left this hγ.le
+  rw [← mul_assoc, mul_inv_cancel₀ hγ.ne', one_mul, ← mul_assoc] at h2
+  calc _ ≤ γ * γ * _ := h2
+    _ = γ^2 * _ := by ring
+
+#print axioms brl_l2_gain
